@@ -1733,11 +1733,8 @@ func ReadTerm(vm *VM, streamOrAlias, out, options Term, k Cont, env *Env) *Promi
 	}
 
 	p := NewParser(vm, s)
-	defer func() {
-		_ = s.UnreadRune()
-	}()
-
 	t, err := p.Term()
+	_ = s.UnreadRune()
 	switch err {
 	case nil:
 		break
@@ -1892,9 +1889,9 @@ func PeekByte(vm *VM, streamOrAlias, inByte Term, k Cont, env *Env) *Promise {
 	}
 
 	b, err := s.ReadByte()
-	defer func() {
+	if err == nil {
 		_ = s.UnreadByte()
-	}()
+	}
 	switch err {
 	case nil:
 		return Unify(vm, inByte, Integer(b), k, env)
@@ -1930,9 +1927,9 @@ func PeekChar(vm *VM, streamOrAlias, char Term, k Cont, env *Env) *Promise {
 	}
 
 	r, _, err := s.ReadRune()
-	defer func() {
+	if err == nil {
 		_ = s.UnreadRune()
-	}()
+	}
 	switch err {
 	case nil:
 		if r == unicode.ReplacementChar {
